@@ -160,6 +160,8 @@ pub fn train_test_split<T: RealNumber, M: Matrix<T>>(
 
     if shuffle {
         indices.shuffle(&mut thread_rng());
+        #[cfg(feature = "verif-hooks")]
+        crate::verif_hooks::reshuffle(crate::verif_hooks::Draw::SplitShuffle, &mut indices);
     }
 
     let x_train = x.take(&indices[n_test..n], 0);
